@@ -37,6 +37,8 @@ THEOREMS = [
     "KrroodVerif.Pred.C12_knobs_history_irrelevant",
     "KrroodVerif.Pred.C12_truth_is_current_call",
     "KrroodVerif.Pred.C12_history",
+    "KrroodVerif.Pred.C12_framed_history",
+    "KrroodVerif.Pred.Obs.framed_spec",
     "KrroodVerif.Pred.C12_cex_positional",
     "KrroodVerif.Pred.C12_cex_shared",
     "KrroodVerif.Pred.C12_rejected",
@@ -103,7 +105,9 @@ TRUSTED = [
 ASSUMPTIONS = [
     "CPython binds f(*args, **kwargs) to positional-or-keyword parameters as inspect.Signature.bind does",
     "and_(HasType(v, T), c) evaluates c once per value of v with v bound; not_(c) complements c; set_of returns the "
-    "bindings of the selected variables (C01/C02's subject, used here only as the frame around the call)",
+    "bindings of the selected variables (C01/C02's subject, used here only as the frame around the call); "
+    "or_ over operands with equal variable sets is an ElseIf that evaluates its right operand from the bindings of a false "
+    "left result (frame `(frame A B)`; the harness checks that an ElseIf was built)",
     "only positional-or-keyword parameters (no *args/**kwargs/keyword-only/positional-only); arguments are query "
     "variables with explicit domains, attribute / method-call / index expressions over ONE such variable, or ordinary "
     "objects (no nested predicate calls, no expressions over two variables); a variable is only ever read as an "
@@ -131,7 +135,10 @@ RULE = ("exhaustive small scope: every signature of arity 1..4 (quick) / 1..5 (t
         "environment variations the model ignores: Predicate subclasses whose constructor DERIVES the state __call__ reads "
         "(__post_init__ of a dataclass / hand-written __init__ keeping nothing under the parameter names), and calls BUILT "
         "(and in half of the cases evaluated) while another query's lazily consumed evaluate() generator over a predicate "
-        "/ symbolic function is suspended between two next() calls and finished afterwards; "
+        "/ symbolic function is suspended between two next() calls and finished afterwards; and one variation the model "
+        "DOES read: the if/else query frame or_(and_(c, A), and_(not_(c), B)) writing the SAME condition object c = [not_] call "
+        "twice (an ElseIf; A / B one shared guard object or its negation, every pattern), over every stream with p = 0.2 where a "
+        "variable is written, none is shared and Python accepts the call, plus a deterministic family; "
         "non-trivial = the call is symbolic and the result set is neither empty nor every candidate binding, or the "
         "call is concrete with at least two parameters; distinct by case text")
 EXHAUSTIVE = True
@@ -156,6 +163,11 @@ class Spec:
         # "fn") is suspended between two next() calls; susp_eval: it is also evaluated inside that window
         self.susp = ""
         self.susp_eval = False
+        # the query frame around the condition c: "" = `and_(pre…, [not_] c)`; "TT"/"TF"/"FT"/"FF" = an if/else that
+        # writes the SAME condition object twice: `or_(and_(c', A), and_(not_(c'), B))` with c' = [not_] c and A / B a
+        # guard over the same variables that holds (T) or does not hold (F) for every candidate - the or_ is an ElseIf,
+        # the second occurrence of c is met with the bindings of the first
+        self.frame = ""
         self.pos = pos  # [("l", n) | ("l", n, t) | ("v", i) | ("a", i, k)]   ("a": variable i through accessor k, see
         # ACCESSORS; ("l", n, t): constant number n in variant t - an ==-equal but different object, see CONST_VARIANTS)
         self.knobs = dict(knobs or {})  # class-level knob name -> True if the non-default alternative is set
@@ -188,6 +200,8 @@ class Spec:
             extra += f" (ctor {self.ctor})"
         if self.susp:
             extra += f" (susp {self.susp} {'T' if self.susp_eval else 'F'})"
+        if self.frame:
+            extra += f" (frame {self.frame[0]} {self.frame[1]})"
         if self.hist:
             extra += " (hist " + " ".join(
                 "(" + " ".join(f"({o} {st})" for o, st in sorted(wd.items())) + ")" for wd in self.hist) + ")"
@@ -274,6 +288,9 @@ class Spec:
         if self.susp:
             t.append("suspended-" + self.susp)
             t.append("suspended-eval-inside" if self.susp_eval else "suspended-build-only")
+        if self.frame:
+            t.append("frame-ifelse")
+            t.append("frame-" + self.frame)
         if self.hist:
             t.append(f"history{len(self.hist)}")
         for n, v in sorted(self.knobs.items()):
@@ -323,6 +340,8 @@ def parse_line(line: str) -> Spec:
     sp.ctor = f.get("ctor", [""])[0]
     if "susp" in f:
         sp.susp, sp.susp_eval = f["susp"][0], f["susp"][1] == "T"
+    if "frame" in f:
+        sp.frame = f["frame"][0] + f["frame"][1]
     return sp
 
 
@@ -578,6 +597,10 @@ def _environment_variants(rng, cases: List[Case]) -> List[Case]:
             sp.susp = rng.choice(["pred", "fn"])
             sp.susp_eval = rng.random() < 0.5
             changed = True
+        if (rng.random() < 0.2 and sp.var_order() and "sharedvar" not in c.tags and "rejected" not in c.tags
+                and not sp.frame):
+            sp.frame = rng.choice(["TT", "TT", "TF", "FT", "FF"])
+            changed = True
         out.append(mk_case(sp, c.origin) if changed else c)
     for ctor in ("post", "init"):
         for neg in (False, True):
@@ -596,6 +619,24 @@ def _environment_variants(rng, cases: List[Case]) -> List[Case]:
                         sp.pos, sp.kw = [("v", 0)], [("b", ("l", 3))]
                     sp.ctor = ctor
                     out.append(mk_case(sp, "exhaustive"))
+    # the if/else frame: the same condition object in both branches, every guard pattern, plain and negated, with and
+    # without a binding conjunct in front, one and two variables, every kind of callable
+    for kind in ("fn", "method", "pred"):
+        for frame in ("TT", "TF", "FT", "FF"):
+            for neg in (False, True):
+                for pre in ([], [0]):
+                    for shape in range(3):
+                        sp = Spec(kind, [("a", None), ("b", 8)], [], [], {0: [1, 2, 3, 4], 1: [1, 2]}, list(pre), neg,
+                                  rng.randrange(0, 3), 2, rng.choice(["obj", "int"]),
+                                  {name: rng.random() < 0.5 for name in knobs_table()})
+                        if shape == 0:
+                            sp.pos = [("v", 0)]
+                        elif shape == 1:
+                            sp.pos, sp.kw = [("v", 0)], [("b", ("v", 1))]
+                        else:
+                            sp.pos, sp.kw = [("l", 2)], [("b", ("v", 0))]
+                        sp.frame = frame
+                        out.append(mk_case(sp, "exhaustive"))
     for kind in ("fn", "method", "pred"):
         for susp in ("pred", "fn"):
             for inside in (False, True):
@@ -925,6 +966,9 @@ def shrink(case: Case):
     add(lambda c: setattr(c, "neg", False))
     if sp.ctor:
         add(lambda c: setattr(c, "ctor", ""))
+    if sp.frame:
+        add(lambda c: setattr(c, "frame", ""))
+        add(lambda c: setattr(c, "frame", "TT"))
     if sp.susp:
         add(lambda c: setattr(c, "susp", ""))
         add(lambda c: setattr(c, "susp_eval", False))
@@ -1417,6 +1461,14 @@ def _one(sp: Spec) -> str:
         atctor = len(w.log)
         w.log.clear()
         cond = not_(c) if sp.neg else c
+        if sp.frame:
+            from krrood.entity_query_language.entity import or_
+            guards = [HasType(variables[i], w.T) for i in order]
+            guard = and_(*guards) if len(guards) > 1 else guards[0]  # ONE object, written in both branches
+            then_, else_ = (guard if t == "T" else not_(guard) for t in sp.frame)
+            cond = or_(and_(cond, then_), and_(not_(cond), else_))
+            if type(cond).__name__ != "ElseIf":
+                return "harness-exc:frame-is-not-an-ElseIf:" + type(cond).__name__
         conds = [HasType(variables[p], w.T) for p in sp.pre] + [cond]
         cond = and_(*conds) if len(conds) > 1 else cond
         sel = [variables[i] for i in order]
@@ -1493,7 +1545,8 @@ def oracle(sp: Spec) -> str:
             env = dict(zip(order, combo))
             t = call(env, world)
             log.append("(" + ",".join(map(sv, t)) + ")")
-            if bool(body(t)) != sp.neg:
+            truth = bool(body(t)) != sp.neg
+            if (truth and sp.frame[0] == "T" or not truth and sp.frame[1] == "T") if sp.frame else truth:
                 rows.add("(" + ",".join(str(env[i]) for i in order) + ")")
         outs.append("S log=[" + ",".join(sorted(log)) + "] rows=[" + ",".join(sorted(rows)) + "]")
     return " ;; ".join(outs)
